@@ -236,7 +236,7 @@ fn run(ctx: &mut Ctx) {
     }
     ctx.exhaustive("every string of length <= 2 over 17 markup/whitespace/control symbols in each of 8 string positions (where inside the position's documented domain) under all 36 serializer configurations");
     // generated values
-    let per_type = ctx.scaled(t.pick(20_000, 300_000)) / ctx.nshards as u64 + 1;
+    let per_type = ctx.scaled(t.pick(20_000, 1_500_000)) / ctx.nshards as u64 + 1;
     'outer: for ops in &fam {
         for k in 0..per_type {
             let vseed = r.next();
